@@ -97,3 +97,18 @@ void bad_out_rbw__own(eb_t r, const eb_t p) {
 	fb_copy(r->z, p->z);
 	r->coord = p->coord;
 }
+
+/* the result is stored over the second operand before that operand's x is read */
+void bad_alias_rw__second(eb_t r, const eb_t p, const eb_t q) {
+	fb_add(r->x, p->x, p->z);
+	fb_add(r->y, q->x, q->z);
+	fb_mul(r->z, r->x, r->y);
+	r->coord = p->coord;
+}
+
+void ok_alias_order(eb_t r, const eb_t p, const eb_t q) {
+	fb_add(r->y, q->x, q->z);
+	fb_add(r->x, p->x, p->z);
+	fb_mul(r->z, r->x, r->y);
+	r->coord = PROJC;
+}
